@@ -87,6 +87,18 @@ type pathExplorer struct {
 	Atomic  map[*ssa.Function]bool // callees that are never spliced (anchors of the rule at hand)
 	depth   int
 	inlined map[*ssa.Function]bool
+	// valBind: for a value of a spliced helper that stands for the result of its call, what the helper's parameters
+	// stand for in the caller
+	valBind map[ssa.Value]map[ssa.Value]ssa.Value
+	// AtomVals: the branch condition behind each atom name (neg: the atom is the negation of the condition)
+	AtomVals map[string]atomVal
+}
+
+type atomVal struct {
+	v   ssa.Value
+	neg bool
+	// bind: for a condition of a spliced helper, what its parameters stand for in the caller
+	bind map[ssa.Value]ssa.Value
 }
 
 func newPathExplorer(p *Program, fn *ssa.Function) *pathExplorer {
@@ -200,6 +212,11 @@ func (pe *pathExplorer) AtomName(cond ssa.Value, pol bool) (string, bool) {
 	if in, ok := cond.(ssa.Instruction); ok && readsMemory(a.E) {
 		name = fmt.Sprintf("%s@%d", name, pe.epoch(in))
 	}
+	if pe.AtomVals == nil {
+		pe.AtomVals = map[string]atomVal{}
+	}
+	// the atom has value (pol == a.Pol) when cond has value pol: atom = cond if a.Pol == pol, else ¬cond
+	pe.AtomVals[name] = atomVal{cond, a.Pol != pol, nil}
 	return name, a.Pol
 }
 
@@ -267,6 +284,11 @@ func (pe *pathExplorer) spliceCall(c *ssa.Call, g *ssa.Function, st pathState) [
 			rens = append(rens, ren{regexp.MustCompile(`param:` + regexp.QuoteMeta(prm.Name()) + `\b`), strings.ReplaceAll(pe.pv.Of(arg).String(), "$", "$$")})
 		}
 	}
+	if os.Getenv("SPLICE_DEBUG") != "" {
+		for _, r := range rens {
+			fmt.Printf("splice %s into %s: %s -> %s\n", g.Name(), pe.fn.Name(), r.re, r.to)
+		}
+	}
 	base := pe.epoch(c)
 	rename := func(name string) string {
 		for _, r := range rens {
@@ -292,6 +314,23 @@ func (pe *pathExplorer) spliceCall(c *ssa.Call, g *ssa.Function, st pathState) [
 		for _, o := range sp.Order {
 			val := o[0] == '+'
 			name := rename(o[1:])
+			if av, ok := sub.AtomVals[o[1:]]; ok {
+				if pe.AtomVals == nil {
+					pe.AtomVals = map[string]atomVal{}
+				}
+				if _, have := pe.AtomVals[name]; !have {
+					bind := map[ssa.Value]ssa.Value{}
+					for k, v := range av.bind {
+						bind[k] = v
+					}
+					for i, prm := range g.Params {
+						if i < len(c.Common().Args) {
+							bind[prm] = c.Common().Args[i]
+						}
+					}
+					pe.AtomVals[name] = atomVal{av.v, av.neg, bind}
+				}
+			}
 			if old, ok := ns.atoms[name]; ok {
 				if old != val {
 					feasible = false
@@ -312,7 +351,23 @@ func (pe *pathExplorer) spliceCall(c *ssa.Call, g *ssa.Function, st pathState) [
 			nr[k] = v
 		}
 		if len(retInstr.Results) == 1 {
-			nr[c] = sp.Resolve(retInstr.Results[0])
+			rv := sp.Resolve(retInstr.Results[0])
+			nr[c] = rv
+			if in, ok := rv.(ssa.Instruction); ok && in.Parent() != pe.fn {
+				if pe.valBind == nil {
+					pe.valBind = map[ssa.Value]map[ssa.Value]ssa.Value{}
+				}
+				bind := map[ssa.Value]ssa.Value{}
+				for k, v := range sub.valBind[rv] {
+					bind[k] = v
+				}
+				for i, prm := range g.Params {
+					if i < len(c.Common().Args) {
+						bind[prm] = c.Common().Args[i]
+					}
+				}
+				pe.valBind[rv] = bind
+			}
 		}
 		ns.ret = nr
 		out = append(out, ns)
@@ -428,6 +483,11 @@ func (pe *pathExplorer) Paths() []*cfgPath {
 					}
 				}
 				name, val := pe.AtomName(cond, k == 0)
+				if bnd, ok := pe.valBind[cond]; ok {
+					av := pe.AtomVals[name]
+					av.bind = bnd
+					pe.AtomVals[name] = av
+				}
 				if old, ok := atoms[name]; ok {
 					if old != val {
 						continue // infeasible
